@@ -143,7 +143,7 @@ Print Assumptions C04_console_rendering_returns.
    position not beyond their end (State::set_scope would panic otherwise)  (MsgOk.v: mutual induction over the
    parser) *)
 Theorem C04_reported_messages_name_positions :
-  forall env p s, G s -> eok (length (items s)) (fst (eval env p s)).
+  forall env p s, GC s -> eok (length (items s)) (fst (eval env p s)).
 Proof. exact (fun env => proj1 (eval_okmsg_all env)). Qed.
 Print Assumptions C04_reported_messages_name_positions.
 
@@ -165,33 +165,26 @@ Theorem C04_message_rendering_returns :
 Proof. exact render_message_returns. Qed.
 Print Assumptions C04_message_rendering_returns.
 
-(* ... hence for EVERY definition, every vector and environment: a failure the top level reports (the tokenizer's
-   ambiguity message included) has a document, and so has the failure ANY command level reports itself, from any
-   well-formed state (a failure handed out of a subcommand was rendered there, by the same theorem) *)
+(* ... hence for EVERY definition, every vector and environment: the failure a run ends with -- whichever command
+   level reported it, the tokenizer's ambiguity message included -- carries its document (FStderr's second field is
+   what Message::render built at that level; None would be a panic of the rendering); the same for the run of any
+   command level from any well-formed state *)
 Theorem C04_error_rendering_returns :
-  forall env feat q inf name argv m s',
-    run_inner_state feat env (Options q inf) name argv = (SFail (FStderr m), s') ->
-    (forall f, fst (eval env q (fst (initial_state (Options q inf) name argv))) <> RErr (MsgParseFailure f)) ->
-    render_message m s' (meta_of q) <> None.
-Proof. exact run_inner_renders. Qed.
+  forall env feat o name argv m, fst (run_inner_state feat env o name argv) <> SFail (FStderr m None).
+Proof. exact run_inner_has_document. Qed.
 Print Assumptions C04_error_rendering_returns.
 
 Theorem C04_level_error_rendering_returns :
-  forall env q inf s m s2,
-    G s -> cw_ok s ->
-    run_sub env (Options q inf) s = (SFail (FStderr m), s2) ->
-    (forall f, fst (eval env q s) <> RErr (MsgParseFailure f)) ->
-    render_message m s2 (meta_of q) <> None.
-Proof. exact run_sub_renders. Qed.
+  forall env o s m, GC s -> fst (run_sub env o s) <> SFail (FStderr m None).
+Proof. exact run_sub_has_document. Qed.
 Print Assumptions C04_level_error_rendering_returns.
 
 (* non-vacuity: `-a -b` with exclusive alternatives: the conflict message is rendered *)
 Example C04_example_error_rendered :
   let p := POr (PFlag (mkNamed [97%N] [] [] None) VUnit None) (PFlag (mkNamed [98%N] [] [] None) VUnit None) in
   match run_inner_state (mkFeat true true false) (fun _ => None) (Options p default_info) None [[45;97]%N; [45;98]%N] with
-  | (SFail (FStderr m), s') =>
-    option_map (fun d => utf8_encode d) (render_message_text true m s' (meta_of p)) =
-    Some (bs "`-b` cannot be used at the same time as `-a`"%string)
+  | (SFail (FStderr m (Some d)), s') =>
+    option_map utf8_encode (render_doc_text true d) = Some (bs "`-b` cannot be used at the same time as `-a`"%string)
   | _ => False
   end.
 Proof. vm_compute. reflexivity. Qed.
